@@ -101,8 +101,20 @@ pub enum HttpAct {
 	Drop,
 }
 
+#[derive(Clone, Debug, PartialEq)]
+pub enum RawWsAct {
+	/// a well-formed masked text frame carrying an `add` call
+	Call,
+	/// a frame with a reserved opcode: a protocol violation, the server terminates the session
+	ReservedOpcode,
+	/// keep the socket open and idle
+	Idle,
+}
+
 #[derive(Clone, Debug)]
 pub enum Conn {
+	/// hand-written WebSocket peer (handshake and frames by hand), for protocol violations
+	WsRaw(Vec<RawWsAct>),
 	Ws(Vec<PeerAct>),
 	Http(Vec<HttpAct>),
 	/// a WebSocket upgrade request whose response is never read: the peer drops the socket right after sending it
@@ -321,6 +333,9 @@ pub fn setup(cfg: &SrvCfg) -> SrvState {
 			}
 			Conn::Http(script) => {
 				tokio::spawn(http_peer(c, b, script));
+			}
+			Conn::WsRaw(script) => {
+				tokio::spawn(raw_ws_peer(c, b, script));
 			}
 			Conn::WsAbortedUpgrade => {
 				tokio::spawn(async move {
@@ -590,5 +605,82 @@ impl<'a> TraceView<'a> {
 	pub fn frames(&self, c: usize) -> Vec<(usize, Value)> {
 		let pre = format!("c{c}:rx:");
 		self.lines.iter().enumerate().filter_map(|(i, l)| l.strip_prefix(&pre).and_then(|t| serde_json::from_str::<Value>(t).ok()).map(|v| (i, v))).collect()
+	}
+}
+
+fn masked_frame(opcode: u8, payload: &[u8]) -> Vec<u8> {
+	let mut f = vec![0x80 | opcode];
+	if payload.len() < 126 {
+		f.push(0x80 | payload.len() as u8);
+	} else {
+		f.push(0x80 | 126);
+		f.extend_from_slice(&(payload.len() as u16).to_be_bytes());
+	}
+	f.extend_from_slice(&[0, 0, 0, 0]);
+	f.extend_from_slice(payload);
+	f
+}
+
+async fn raw_ws_peer(c: usize, mut io: tokio::io::DuplexStream, script: Vec<RawWsAct>) {
+	sched::point(format!("c{c}:connect")).await;
+	sched::log(format!("c{c}:handshake-sent"));
+	let req = "GET / HTTP/1.1\r\nhost: localhost\r\nupgrade: websocket\r\nconnection: upgrade\r\nsec-websocket-key: dGhlIHNhbXBsZSBub25jZQ==\r\nsec-websocket-version: 13\r\n\r\n";
+	if io.write_all(req.as_bytes()).await.is_err() {
+		return;
+	}
+	// read the response head
+	let mut buf = Vec::new();
+	let mut tmp = [0u8; 512];
+	loop {
+		if buf.windows(4).any(|w| w == b"\r\n\r\n") {
+			break;
+		}
+		match io.read(&mut tmp).await {
+			Ok(0) | Err(_) => {
+				sched::log(format!("c{c}:eof"));
+				return;
+			}
+			Ok(n) => buf.extend_from_slice(&tmp[..n]),
+		}
+	}
+	let head = String::from_utf8_lossy(&buf).to_string();
+	let status: u16 = head.split_whitespace().nth(1).and_then(|x| x.parse().ok()).unwrap_or(0);
+	if status != 101 {
+		sched::log(format!("c{c}:handshake-rejected:{status}"));
+		return;
+	}
+	sched::log(format!("c{c}:ws-open"));
+	let mut n = 0;
+	for (k, act) in script.into_iter().enumerate() {
+		sched::point(format!("c{c}:act{k}:{act:?}")).await;
+		match act {
+			RawWsAct::Call => {
+				n += 1;
+				let body = json!({"jsonrpc":"2.0","id": format!("c{n}"), "method":"add","params":[n, 1]}).to_string();
+				sched::log(format!("c{c}:tx:{body}"));
+				let _ = io.write_all(&masked_frame(1, body.as_bytes())).await;
+			}
+			RawWsAct::ReservedOpcode => {
+				sched::log(format!("c{c}:tx:RESERVED-OPCODE"));
+				let _ = io.write_all(&masked_frame(3, b"x")).await;
+			}
+			RawWsAct::Idle => {}
+		}
+	}
+	// keep the socket open (never closes it): read whatever the server sends until it closes
+	loop {
+		match io.read(&mut tmp).await {
+			Ok(0) | Err(_) => {
+				sched::log(format!("c{c}:eof"));
+				return;
+			}
+			Ok(k) => {
+				// unmasked server frames: log text payloads of short frames
+				let d = &tmp[..k];
+				if d.len() >= 2 && d[0] == 0x81 && (d[1] as usize) < 126 && d.len() >= 2 + d[1] as usize {
+					sched::log(format!("c{c}:rx:{}", String::from_utf8_lossy(&d[2..2 + d[1] as usize])));
+				}
+			}
+		}
 	}
 }
